@@ -9,7 +9,7 @@
 From Coq Require Import List NArith ZArith.
 From PB Require Import Base.PBytes Json.JsonUtf8 Json.JsonGrammar Json.JsonNumModel Json.JsonNumP
   Json.JsonLexModel Json.JsonStrP Json.JsonLexP Json.JsonEncModel Json.JsonEncP Json.JsonEncSpec
-  Json.JsonEncGrammarP Json.JsonGrammarP Json.JsonStrict Json.JsonLexCompleteP.
+  Json.JsonEncGrammarP Json.JsonGrammarP Json.JsonStrict Json.JsonLexCompleteP Json.JsonGrammarCompleteP.
 Import ListNotations.
 
 (* If reading tokens to EOF succeeds (and at least one token was read) the input is a JSON
@@ -55,11 +55,15 @@ Proof. exact is_rfc_number_iff. Qed.
 Print Assumptions C21_is_rfc_number_iff.
 
 (* The executable recogniser of whole documents (the one the harness compares with
-   encoding/json.Valid && utf8.Valid on every generated document) accepts only members of the
-   inductive grammar.  (Completeness of [is_json] is checked by the harness only.) *)
+   encoding/json.Valid && utf8.Valid on every generated document) and the inductive grammar
+   coincide. *)
 Theorem C21_is_json_sound : forall s, is_json s = true -> json_text s.
 Proof. exact is_json_sound. Qed.
 Print Assumptions C21_is_json_sound.
+
+Theorem C21_is_json_iff : forall s, is_json s = true <-> json_text s.
+Proof. exact is_json_iff. Qed.
+Print Assumptions C21_is_json_iff.
 
 (* parseString accepts only RFC 8259 strings (escapes, \u with surrogate pairs, UTF-8) *)
 Theorem C21_parse_string_sound :
